@@ -275,6 +275,8 @@ def run_job(job, tier, verbose=False, keep=None):
             if r.get("description") == "undefined function should be unreachable" and r.get("status") == "FAILURE":
                 raise MachineryError("function %s is reached but has neither body nor contract (add an env stub or a contract)"
                                      % r.get("property", "?").split(".")[0])
+            if r.get("description", "").startswith("MACHINERY:") and r.get("status") == "FAILURE":
+                raise MachineryError(r["description"])
             if "unwinding assertion" in r.get("description", "") and r.get("status") == "FAILURE":
                 raise MachineryError("unwinding assertion failed: bound too small for %s" % r.get("property"))
             k = classify_prop(r)
